@@ -282,12 +282,17 @@ func cmdReplay(args []string) {
 	shapes := map[string]bool{}
 	traces, lines, n := 0, 0, 0
 	journal, _ := os.Create(args[1] + ".journal")
+	var progress int64
+	hlib.Watchdog(res, &progress, 90*time.Second, "endpoint/hang", func() string {
+		return "a replayed behaviour does not end: an operation on the endpoint never returns (deadlock)"
+	})
 	hlib.ReadLines(args[0], func(line []byte) {
 		var ops []tOp
 		if err := json.Unmarshal(line, &ops); err != nil {
 			hlib.Fatal("bad test: %v", err)
 		}
 		n++
+		atomic.AddInt64(&progress, 1)
 		if res.FailCount["endpoint/hang"] >= 3 {
 			return // the code under test hangs: more cases would only wait
 		}
@@ -469,7 +474,12 @@ func cmdStress(args []string) {
 	rng := rand.New(rand.NewSource(hlib.Seed()))
 	lines := 0
 	shapes := map[string]bool{}
+	var progress int64
+	hlib.Watchdog(res, &progress, 90*time.Second, "endpoint/hang", func() string {
+		return "a stress round does not end: an operation on the endpoint never returns (deadlock)"
+	})
 	for round := 0; round < rounds; round++ {
+		atomic.AddInt64(&progress, 1)
 		if res.FailCount["endpoint/hang"] >= 3 {
 			break
 		}
